@@ -12,7 +12,8 @@ from vf.runner import REPO, HarnessError, Violation, hyp_search
 
 ID = "C06"
 RULE = ("Trees built through the public API (constructor, add_child, add_namespace before and after the subtree "
-        "exists, add_attribute, add_extras, setters) so that every namespace map includes its parent's prefixes; names, "
+        "exists, remove_namespace on a finished subtree, a map assigned through the nsmap setter, add_attribute, "
+        "add_extras, setters): a child's map may lack prefixes of its parent's and may bind empty names; names, "
         "content, tail, attribute / extras keys and values, prefixes and URIs are arbitrary Unicode (empty strings, "
         "quotes, backslashes, control and astral characters).  Oracle: from_json(to_json(t)) has the same ids, names, "
         "child order, content, tail, attributes, extras, prefix and namespace maps, parent links set; to_json of the "
@@ -22,7 +23,7 @@ RULE = ("Trees built through the public API (constructor, add_child, add_namespa
         "nodes carrying tail / extras / prefix / a namespace map that differs from the parent's; distinct trees by hash.")
 ASSUMPTIONS = [
     "to_20210209 is extracted from utils/convert.py with ast (the module configures logging and needs click at import)",
-    "strings contain no lone surrogates",
+    "names, prefixes and URIs contain no lone surrogates (content and attribute values may)",
 ]
 
 _conv = []
